@@ -15,6 +15,12 @@ CHECKS = {
  "C14": ("exploration", "exhaustive single-point mutation enumeration of corpus Sierra programs and serialized classes, executed on the real registry/metadata/compile pipeline",
          "Every mutant of every corpus program (and every position x boundary value of its felt serialization) runs through ProgramRegistryInfo::new, calc_metadata (both solver families), compile, extract_sierra_program and CasmContractClass::from_contract_class under catch_unwind + fatal-signal handler + address-space cap + watchdog. Findings are keyed by panic site.",
          "Corpus programs are seeds; multi-point mutants only in the thorough tier for small programs; 4 GiB address-space cap stands for 'allocates without bound'.", "DESIGN.md §3 C14"),
+ "C15": ("model_checking", "explicit-state exploration of an independent abstract typing/linearity machine over every control-flow path, conformance-checked against the real compile on every program of the exhaustive single-point mutation space",
+         "A reference model (abstract interpreter over (statement, var->type) states, written without the compiler's annotation code) is explored to a fixpoint on every mutant; the implementation's verdict (compile) is computed for every one of them and compile==Ok with model==Err is the violation. The evidence carries abstract states/transitions and the 2x2 agreement matrix, so vacuity (a checker that accepts everything, or no accepted mutants) is visible.",
+         "Libfunc signatures from ProgramRegistry are trusted as the per-operation type specification; dup/drop legality is left to the registry's specialization.", "DESIGN.md §3 C15"),
+ "C18": ("exploration", "complete pass over corpus Sierra + compiler-generated Sierra and a programmatically enumerated format lattice, every program through every serialization on the real code",
+         "Each program is printed and re-parsed (fixpoint after one round, isomorphism), serialized to felts via ContractClass and back, through VersionedProgram JSON and back, and each variant is compiled to CASM and compared byte for byte. The lattice enumerates every GenericArg kind x boundary values x harvested real debug-name spellings x statement shapes.",
+         "Program equality is the crate's id-based equality; lattice programs are not valid Sierra and only exercise serialization.", "DESIGN.md §3 C18"),
 }
 
 NOT_YET = {
